@@ -18,7 +18,7 @@
 (* n * 10^e with a small (32-bit) coefficient; the big-number arithmetic   *)
 (* of property C05 lives in Decimal.tla.                                   *)
 (***************************************************************************)
-EXTENDS Integers, Sequences, FiniteSets, TLC
+EXTENDS Integers, Sequences, FiniteSets, TLC, Outcome
 
 Null     == [t |-> "null"]
 Bool(b)  == [t |-> "bool", b |-> b]
@@ -36,13 +36,6 @@ Mem(k, v) == [k |-> k, v |-> v]
 \* of error categories that are present (the standard leaves open which of
 \* several simultaneous faults is reported), or "any" = not pinned down by
 \* the standard or its corpus.
-Err(c)    == [t |-> "err", cs |-> {c}]
-ErrS(cs)  == [t |-> "err", cs |-> cs]
-Open       == [t |-> "any"]
-IsErr(x)  == x.t = "err"
-IsAny(x)  == x.t = "any"
-IsVal(x)  == x.t \notin {"err", "any"}
-
 \* ----------------------------------------------------------------- numbers
 RECURSIVE NormNE(_, _)
 NormNE(n, e) == IF n = 0 THEN [t |-> "num", n |-> 0, e |-> 0]
